@@ -8,11 +8,14 @@ CONSTANTS Variant, Emit
 VARIABLES fs, cfg, hist
 vars == <<fs, cfg, hist>>
 View == <<fs, cfg>>
-NameClasses == {"plain", "space", "nonascii", "hash", "query", "semi", "colon", "subdir", "percent", "abs"}
+NameClasses == {"plain", "space", "nonascii", "hash", "query", "semi", "colon", "scheme", "subdir", "percent", "abs"}
 V == IF Variant = "repaired" THEN Repaired ELSE Original
 Formats == {"json", "xml", "provn", "rdf"}
-Faults == {<<>>} \cup {<<[at |-> "move", k |-> 0, short |-> "none"]>>}
-          \cup {<<[at |-> "write", k |-> k, short |-> sh]>> : k \in 1..4, sh \in {"none", "half", "most"}}
+(* the k-th write (nothing / half / all but one byte reaches the disk), transient or persistent *)
+(* (every later write and the flush of close() fail too); the final flush of close(); the move  *)
+Faults == {<<>>} \cup {<<[at |-> "move", k |-> 0, short |-> "none", persist |-> FALSE]>>}
+          \cup {<<[at |-> "write", k |-> k, short |-> sh, persist |-> p]>> : k \in 1..4, sh \in {"none", "half", "most"}, p \in BOOLEAN}
+          \cup {<<[at |-> "close", k |-> 0, short |-> sh, persist |-> FALSE]>> : sh \in {"none", "half"}}
 (* (B): every configuration x crash point as one Save call for the driver *)
 SaveActs(c) == { [op |-> "Save", fmt |-> f, name |-> c.name, existing |-> c.existing,
                   crossFs |-> c.crossFs, fault |-> ft] : f \in Formats, ft \in Faults }
